@@ -85,7 +85,7 @@ mod __verif_kani {
     macro_rules! char_case {
         ($name:ident, $which:expr, $class:expr) => {
             #[kani::proof]
-            #[kani::unwind(18)]
+            #[kani::unwind(7)]
             #[kani::stub(crate::util::simd::escape::find_json_escape, contract_find_json_escape)]
             pub fn $name() { check($which, $class); }
         };
